@@ -46,7 +46,7 @@ impl <N: NumericOps> ArrayLinalgSolvingInvertingProducts<N> for Array<N> {
 
         let mut arr_l = Self::identity(n)?.to_array_f64()?.to_matrix()?;
         let mut arr_u = self.to_array_f64()?.to_matrix()?;
-
+        let mut row_order = (0..n).collect::<Vec<usize>>();
         for j in 0..n {
             let mut pivot_row = j;
             for i in j + 1..n {
@@ -57,6 +57,7 @@ impl <N: NumericOps> ArrayLinalgSolvingInvertingProducts<N> for Array<N> {
                 let tmp = arr_u[pivot_row].clone();
                 arr_u[pivot_row] = arr_u[j].clone();
                 arr_u[j] = tmp;
+                row_order.swap(pivot_row, j);
 
                 let tmp = arr_l[pivot_row].clone();
                 for (idx, item) in tmp.iter().enumerate().take(j) {
@@ -76,11 +77,15 @@ impl <N: NumericOps> ArrayLinalgSolvingInvertingProducts<N> for Array<N> {
 
         let other = other.to_array_f64()?;
         let mut arr_y = Array::<f64>::zeros_like(&other)?.get_rows()?;
-        let arr_b = other.to_array_f64()?.get_rows()?;
+        // the right-hand side follows the row exchanges of the elimination
+        let rows_b = other.to_array_f64()?.get_rows()?;
+        let arr_b = row_order.iter().map(|&row| rows_b[row].clone()).collect::<Vec<Array<f64>>>();
         for i in 0..n {
             let l_tmp = arr_l[i][..i].to_vec().to_array()?;
             let y_tmp = arr_y[..i].iter().flatten().copied().collect::<Vec<f64>>().to_array()?;
-            let dot = l_tmp.dot(&y_tmp).unwrap_or(Array::flat(vec![0.; arr_b[0].len()?])?);
+            // one row of y per solved equation, one column per right-hand side
+            let y_tmp = if i > 0 { y_tmp.reshape(&[i, arr_b[0].len()?])? } else { y_tmp };
+            let dot = l_tmp.dot(&y_tmp).ravel().unwrap_or(Array::flat(vec![0.; arr_b[0].len()?])?);
             arr_y[i] = arr_b[i].broadcast_to(dot.get_shape()?)? - dot;
         }
 
@@ -88,7 +93,8 @@ impl <N: NumericOps> ArrayLinalgSolvingInvertingProducts<N> for Array<N> {
         for i in (0..n).rev() {
             let u_tmp = arr_u[i][i + 1..].to_vec().to_array()?;
             let x_tmp = arr_x[i + 1..].iter().flatten().copied().collect::<Vec<f64>>().to_array()?;
-            let dot = u_tmp.dot(&x_tmp).unwrap_or(Array::flat(vec![0.; arr_b[0].len()?])?);
+            let x_tmp = if i + 1 < n { x_tmp.reshape(&[n - i - 1, arr_b[0].len()?])? } else { x_tmp };
+            let dot = u_tmp.dot(&x_tmp).ravel().unwrap_or(Array::flat(vec![0.; arr_b[0].len()?])?);
             arr_x[i] = ((arr_y[i].clone() - dot) / arr_u[i][i])?;
         }
 
